@@ -36,6 +36,7 @@ type c13Ask struct {
 type c13Scenario struct {
 	Askers  [][]c13Ask `json:"askers"`
 	NoStall bool       `json:"no_stall"`
+	Shared  string     `json:"one_ask_object_asked_from_two_goroutines,omitempty"` // "", "async", "inline": reply policy of that request
 
 	probes map[string]int
 	reqs   []*c13Req
@@ -65,6 +66,9 @@ func c13f(m int) int { return m*7 + 1 }
 func genC13(t *simrt.Tape, tier string) Scenario {
 	sc := &c13Scenario{probes: map[string]int{}}
 	sc.NoStall = t.Bool(1, 2)
+	if sc.NoStall && t.Bool(1, 4) {
+		sc.Shared = []string{"async", "inline"}[t.Choose(2)]
+	}
 	maxA, maxN := 3, 3
 	if tier == "thorough" {
 		maxA, maxN = 6, 4
@@ -249,6 +253,34 @@ func (sc *c13Scenario) Run(s *simrt.Sim) {
 		}
 	}
 	s.SetFair(true)
+	if sc.Shared != "" && !sc.hung {
+		// One Ask object, two requests in flight at once: an impatient AskOnceWithTimeout (1ms) and a patient one
+		// (10 min) from another goroutine; the actor answers every arrival 5ms later. The impatient call times out
+		// cleanly; the patient call is a request of its own and must get the answer (two replies are produced, the
+		// reply channel holds one, nobody blocks). Stall-free runs only.
+		msg++
+		sr := &c13Req{msg: msg, spec: c13Ask{Via: "shared", Policy: sc.Shared, Latency: 5 * time.Millisecond}}
+		byMsg[msg] = sr
+		ask := fpgo.AskNewGenerics[int, int](sr.msg)
+		var opA, opB *Op
+		ta := s.Go("shared-impatient", func() {
+			opA = h.Do("shared-impatient", "AskOnceWithTimeout", sr.msg, func() (interface{}, error) { return ask.AskOnceWithTimeout(proxy, time.Millisecond) })
+		})
+		tb := s.Go("shared-patient", func() {
+			opB = h.Do("shared-patient", "AskOnceWithTimeout", sr.msg, func() (interface{}, error) { return ask.AskOnceWithTimeout(proxy, 10*time.Minute) })
+		})
+		s.WaitUntilTimeout(func() bool { return ta.Done() && tb.Done() }, 30*time.Minute)
+		sc.probes["one-ask-object-two-requests-in-flight"]++
+		if opA != nil && opA.Returned && opA.Panic == "" && opA.Err == nil && opA.Val != c13f(sr.msg) {
+			sc.extra = append(sc.extra, Violation{Clause: "correlation", Fingerprint: "shared-ask-object-wrong-answer", Detail: "impatient call on a shared Ask object: " + opA.String()})
+		}
+		if opB == nil || !opB.Returned {
+			sc.extra = append(sc.extra, Violation{Clause: "hang", Fingerprint: "shared-ask-object-patient-call-never-returned", Detail: "the patient AskOnceWithTimeout on an Ask object that another goroutine asked (and timed out on) at the same time never returned"})
+		} else if opB.Panic == "" && (opB.Err != nil || opB.Val != c13f(sr.msg)) {
+			sc.extra = append(sc.extra, Violation{Clause: "timeout", Fingerprint: "shared-ask-object-patient-call-not-answered",
+				Detail: fmt.Sprintf("one Ask object asked from two goroutines: the impatient call (1ms) ended with %v; the patient call (10min) got %s although the actor replied to every arrival after 5ms (want %d, nil)", opA, opB.String(), c13f(sr.msg))})
+		}
+	}
 	// let late replies happen, then check that the actor still serves
 	s.Sleep(200 * time.Millisecond)
 	msg++
